@@ -206,5 +206,9 @@ class TerminationCondition(object):
             warnings.warn(msg)
             assert isinstance(self._best_x, torch.Tensor)
             return self._best_x
+        elif self._best_x is not None:
+            # the last iterate has not been evaluated: return the best evaluated
+            # point, so that the objective is never larger than at the initial guess
+            return self._best_x
         else:
             return x
